@@ -2,6 +2,7 @@ package gengo
 
 import (
 	"bytes"
+	"go/types"
 
 	"github.com/octohelm/gengo/internal/verifsym"
 )
@@ -63,5 +64,110 @@ func Verif_C03_WriteImports(k int) {
 	}
 	verifsym.Assert(ok, "import block is not exactly one line per referenced package")
 	verifsym.Observe("out", out)
+	verifsym.Reach("end")
+}
+
+// ---------------------------------------------------------------- C06: enablement rule and tag merge
+
+type vGen struct{ name string }
+
+func (g *vGen) Name() string { return g.name }
+
+func (g *vGen) GenerateType(Context, *types.Named) error { return nil }
+
+func vKey(n int) string { return verifsym.String(n) }
+
+// Verif_C06_Enabled: tags = k entries whose keys are fully symbolic strings of
+// lengths around len("gengo:g") (so "gengo:g", "gengo:g:x", "gengo:gx" - a
+// generator whose name is a prefix of another - all arise as models), values
+// symbolic, under every map iteration order. Result = order-free specification:
+// exact key present -> value != "false"; else any "gengo:<name>:" prefix ->
+// true; else false. (The exact key's value list is single-valued: the statement
+// is silent on a repeated tag.)
+func Verif_C06_Enabled(genLen, k, l1, l2, l3 int) {
+	name := "g"
+	if genLen == 2 {
+		name = "gx"
+	}
+	prefix := "gengo:" + name
+	tags := map[string][]string{}
+	lens := []int{l1, l2, l3}
+	var keys []string
+	for i := 0; i < k; i++ {
+		key := vKey(lens[i])
+		for _, q := range keys {
+			verifsym.Assume(key != q)
+		}
+		keys = append(keys, key)
+		// value: "false", "true" or a symbolic 5-byte text, chosen symbolically
+		var v string
+		switch verifsym.IntRange(0, 2) {
+		case 0:
+			v = "false"
+		case 1:
+			v = ""
+		default:
+			v = verifsym.String(5)
+		}
+		tags[key] = []string{v}
+	}
+	// specification, independent of order
+	want := false
+	exact := false
+	for i, key := range keys {
+		_ = i
+		if key == prefix {
+			exact = true
+			want = tags[key][0] != "false"
+		}
+	}
+	if !exact {
+		for _, key := range keys {
+			if len(key) > len(prefix) && key[:len(prefix)+1] == prefix+":" {
+				want = true
+			}
+		}
+	}
+	got := IsGeneratorEnabled(&vGen{name: name}, tags)
+	verifsym.Assert(got == want, "IsGeneratorEnabled differs from the rule (or depends on map iteration order)")
+	verifsym.Observe("got", got)
+	verifsym.Reach("end")
+}
+
+// Verif_C06_Merge: merge(globals, pkg, decl)[k] = decl's, else pkg's, else
+// globals' value, for symbolic presence of key "k" at each level and a second
+// key "j" present somewhere, under every iteration order.
+func Verif_C06_Merge() {
+	mk := func(tag string) map[string][]string {
+		m := map[string][]string{}
+		if verifsym.Bool() {
+			m["k"] = []string{tag}
+		}
+		if verifsym.Bool() {
+			m["j"] = []string{tag + "j"}
+		}
+		return m
+	}
+	g, p, d := mk("G"), mk("P"), mk("D")
+	got := merge(g, p, d)
+	for _, key := range []string{"k", "j"} {
+		want := ""
+		has := false
+		for _, m := range []map[string][]string{g, p, d} {
+			if v, ok := m[key]; ok {
+				want, has = v[0], true
+			}
+		}
+		v, ok := got[key]
+		verifsym.Assert(ok == has, "merged tag presence differs")
+		if ok && has {
+			verifsym.Assert(len(v) == 1 && v[0] == want, "merge precedence is not globals < package < declaration")
+		}
+	}
+	n := 0
+	for range got {
+		n++
+	}
+	verifsym.Assert(n <= 2, "merge invented a key")
 	verifsym.Reach("end")
 }
